@@ -11,3 +11,6 @@ import Solvor.Mst.Theorems
 #print axioms Solvor.Mst.prim_tree
 #print axioms Solvor.Mst.prim_minimal
 #print axioms Solvor.Mst.kruskal_prim_agree
+#print axioms Solvor.Mst.kruskalUF_eq
+#print axioms Solvor.Mst.inputShape_correct
+#print axioms Solvor.Mst.IsSpanningTree.forest
